@@ -106,6 +106,11 @@ CanonCharacterisesCover ==
   pc = "done" => /\ Cover(CanonSet(input), R0) = Cover(input, R0)
                  /\ Antichain(CanonSet(input)) /\ Maximal(CanonSet(input))
 Terminates == npass <= 6
+\* liveness (checked under weak fairness in MC_Compact_live.cfg): the loop reaches "done", because every pass that reports a
+\* change has strictly shortened the list (the variant function of the loop)
+LiveSpec == Spec /\ WF_vars(Next)
+Termination == <>(pc = "done")
+PassShrinks == [][(pc = "pass" /\ pc' = "pass" /\ changed') => Len(cur') < Len(cur)]_vars
 
 Dump == pc = "done" /\ input # {} =>
           PrintT("REPLAY " \o ToJson([kind |-> "compact", cells |-> SetToSeq(input), antichain |-> Antichain(input)]))
